@@ -1,6 +1,7 @@
 CONSTANTS
   N = 3
   MaxTasks = 1
+  G = 1
   Dev = {}
   KeepHist = FALSE
 INIT GInit
